@@ -10,7 +10,7 @@
    comes from the freshly built libcgns.a.
 
    usage: c17_io <dir> <adf|hdf5>        script on stdin:
-     world <kinds> <links>   kinds = csv of ok|okL|okB|okE|missing|garbage|badhdr|dir (file F<i>.cgio has kind number i; ok* =
+     world <kinds> <links>   kinds = csv of ok|okL|okB|okE|missing|garbage|badhdr|dir|empty|x... (x...: file supplied by the driver) (file F<i>.cgio has kind number i; ok* =
                              valid files in the NATIVE / LEGACY / IEEE_BIG / IEEE_LITTLE layout);
                              links = csv of a>b (file a has, under its node /D, a link node L<b> to F<b>.cgio:/D) or -
                              (files are created in a forked child; the descriptor baseline is taken afterwards)
@@ -35,6 +35,7 @@
 static char dir[600];
 static int is_h5 = 0;
 static int fd0 = 0;
+static int last_ec = 0;
 
 static void path_of(int n, char *out) { sprintf(out, "%s/F%d.cgio", dir, n); }
 
@@ -74,6 +75,9 @@ static void make_world(char *kinds, char *links)
             for (j = 0; j < 64; j++) fputc(33 + (j * 7) % 90, f);
             fclose(f);
         } else if (!strcmp(k[i], "dir")) mkdir(p, 0777);
+        else if (!strcmp(k[i], "empty")) { FILE *f = fopen(p, "wb"); if (f) fclose(f); }
+        /* kinds starting with 'x': the file F<i>.cgio was put there by the driver (a file some open path refuses: checks/C17.py
+           refused_pool -- header mutants and truncations derived with the C13 machinery) */
     }
     for (i = 0; i < nk; i++) {
         char p[700], ln[4096], *s2, *e; int c; double root, did, lid;
@@ -134,6 +138,7 @@ static void dump_state(void)
     }
     if (maximum_files == 0) printf("-");
     printf(" | fds %d h5 %ld", fd_count() - fd0, h5_count());
+    if (last_ec) { printf(" | ec %d", last_ec); last_ec = 0; }      /* the error code of a refused open (never compared with the model) */
     if (is_h5) {
         /* identifier census by kind (datatypes,datasets,attributes,groups): of the whole process, then of the file of every
            open cgio handle (ids opened through that file: what ADFH_Database_Close will look at) */
@@ -177,9 +182,14 @@ int main(int argc, char **argv)
             fd0 = fd_count();
             printf("world ok"); dump_state();
         } else if (sscanf(line, "open %d %c", &n, &m) == 2) {
-            char p[700]; int st;
+            static char p[2400]; int st;
             path_of(n, p); c = 0;
+            if (n == 63) {      /* a file name longer than any the library accepts (CGIO_MAX_FILE_LENGTH / ADF_FILENAME_LENGTH) */
+                size_t q = strlen(dir); memset(p + q + 1, 'L', 1500); strcpy(p + q + 1501, ".cgio");
+            }
             st = cgio_open_file(p, m, CGIO_FILE_NONE, &c);
+            last_ec = 0;
+            if (st) { int ft = 0; cgio_error_code(&last_ec, &ft); }
             if (st) printf("open err 0"); else printf("open ok %d", c); dump_state();
         } else if (!strncmp(line, "walk ", 5) || !strncmp(line, "node ", 5)) {
             char path[4096] = "/D", *s, *t; int st; double root = 0, id = 0; char label[CGIO_MAX_LABEL_LENGTH + 1];
